@@ -2,6 +2,7 @@
 // Oracle: the same call with a separate output buffer on a copy of the same data (bitwise equality:
 // the same kernel runs), for every aliasing pattern the property lists.
 #include "lib.h"
+#include "ops.h"
 
 typedef enum {
   A_COPY, A_NEGATE, A_ROTATE, A_AUTO, A_NORMALIZE, A_ADD_RA, A_ADD_RB, A_SUB_RA, A_SUB_RB,
@@ -217,6 +218,24 @@ static void fftvec_alias_case(int ly, int addmul, int variant, uint64_t m, int a
   case_end(ok);
 }
 
+// every aliased catalogue entry run by several threads at once (private buffers, shared module / tables)
+static void concurrent_alias_case(uint64_t N, int T, unsigned rep) {
+  if (!case_begin("aliased-entry-points|concurrent threads", "N=%" PRIu64 " threads=%d rep=%u", N, T, rep)) return;
+  const char* names[64];
+  int n = 0;
+  for (int i = 0; i < N_CAT_OPS && n < 64; i++)
+    if (strstr(OPS[i].name, "(res==") || strstr(OPS[i].name, "(r==") || strstr(OPS[i].name, "inplace")) names[n++] = OPS[i].name;
+  env_t* e = env_create(N, 1);
+  char msg[240] = "";
+  uint64_t calls = 0;
+  uint64_t bad = ops_concurrent_check(names, n, e, T, N <= 1024 ? 40 : 8, G.seed * 977 + rep, msg, sizeof msg, &calls);
+  if (bad) viol("differential", "%s (%" PRIu64 " differing calls)", msg, bad);
+  env_destroy(e);
+  cnt("concurrent_aliased_calls", calls);
+  sample("%d aliased entry points x %d threads: %" PRIu64 " calls equal to their sequential re-run", n, T, calls);
+  case_end(1);
+}
+
 void run_C13(void) {
   const int th = G.thorough;
   unsigned ctr = 0;
@@ -248,6 +267,11 @@ void run_C13(void) {
           if (!th && N > 1024 && ((rs + as + ni) & 1)) continue;
           idft_case(N, cfg == 2 ? NTT120 : FFT64, cfg != 1, rs, as, 0);
         }
+  }
+  {
+    static const uint64_t CN[] = {4, 64, 512, 2048, 8192};
+    for (size_t i = 0; i < ARRAY_LEN(CN); i++)
+      for (unsigned rep = 0; rep < (th ? 10u : 2u); rep++) concurrent_alias_case(CN[i], rep & 1 ? 16 : 4, rep);
   }
   // exhaustive p for in-place rotate / automorphism through the vector API on small N (coupled with C09)
   for (uint64_t N = 2; N <= (th ? 256u : 64u); N <<= 1)
